@@ -305,3 +305,40 @@ func DecodeRules(v []interface{}) ([]*Rule, error) {
 	}
 	return out, nil
 }
+
+// Clone deep-copies an expression.
+func Clone(e Expr) Expr {
+	if e == nil {
+		return nil
+	}
+	switch x := e.(type) {
+	case *Lit:
+		c := *x
+		return &c
+	case *Path:
+		p := &Path{Root: x.Root, Steps: make([]Step, len(x.Steps))}
+		for i, s := range x.Steps {
+			p.Steps[i] = Step{Field: s.Field, Index: Clone(s.Index)}
+		}
+		return p
+	case *Call:
+		c := &Call{Recv: Clone(x.Recv), Name: x.Name, Args: make([]Expr, len(x.Args))}
+		for i, a := range x.Args {
+			c.Args[i] = Clone(a)
+		}
+		return c
+	case *Member:
+		return &Member{X: Clone(x.X), Field: x.Field}
+	case *Index:
+		return &Index{X: Clone(x.X), Idx: Clone(x.Idx)}
+	case *Not:
+		return &Not{X: Clone(x.X)}
+	case *Bin:
+		return &Bin{Op: x.Op, L: Clone(x.L), R: Clone(x.R)}
+	case *Paren:
+		return &Paren{X: Clone(x.X)}
+	case *Frozen:
+		return &Frozen{X: Clone(x.X)}
+	}
+	panic(fmt.Sprintf("clone: %T", e))
+}
